@@ -81,6 +81,7 @@ class Case:
         self.w = World(dict(peers=peers, apps=[app], node={"cea_timeout": 3, "cer_timeout": 3, "dwa_timeout": 3}))
         self.h, self.node, self.app = self.w.h, self.w.node, self.w.apps["a4"]
         self.delivered_fault = False
+        self.used_ids = []
         self.hbh = 500
         self.gen = 0
 
@@ -89,6 +90,7 @@ class Case:
 
     def ids(self):
         self.hbh += 1
+        self.used_ids.append((self.hbh, 0xa000 + self.hbh))
         return self.hbh, 0xa000 + self.hbh
 
     def cut_of(self, frame: bytes, cut: str):
@@ -392,8 +394,23 @@ class Case:
             self.witness("probe.handshake_failed", {"frames": [repr(f) for f in fr]})
             return
         self.w.observe()
+        # the probe reuses the identifiers of the transactions that were cut short (a restarted client does), then
+        # goes on with fresh ones
+        reuse = list(reversed(self.used_ids))[:limit + 2]
+        # (only when every earlier connection is gone: the same identifier pair outstanding on two live connections
+        # of different peers is outside what the property quantifies over)
+        others = [s for s in h.sockets if s.role in ("accepted", "outbound") and s is not sp.node_sock and not s.closed]
+        if others:
+            reuse = []
+        else:
+            self.run.cov["probes_reusing_identifiers"] = self.run.cov.get("probes_reusing_identifiers", 0) + 1
         for i in range(limit + 2):
-            hbh, e2e = 9000 + i, 0xbb00 + i
+            hbh, e2e = reuse[i] if i < len(reuse) else (9000 + i, 0xbb00 + i)
+            if self.spec["handler"] == "none":
+                # earlier transactions were left unanswered; the handler answers every other one of the probe's
+                # requests (what an unanswered transaction left behind shows only when an answer is due)
+                handler = "answer" if i % 2 == 0 else "none"
+                self.beh["v"] = handler
             seen = len(sp.frames)
             sp.send(M.ccr(PROBE, self.REALM, self.REALM, app=4, hbh=hbh, e2e=e2e, session=f"probe;{i}"))
             h.settle()
